@@ -539,6 +539,14 @@ func (c *ChannelArbitrator) progressStateMachineAfterRestart(bestHeight int32,
 		triggerHeight = c.cfg.ClosingHeight
 	}
 
+	// If the channel isn't marked closed in the database, a confirmed
+	// commit set found on disk belongs to a close event whose handling
+	// didn't finish. The chain watcher will deliver that event again, until
+	// then only our own view of the commitments counts.
+	if !c.cfg.IsPendingClose && !c.state.IsContractClosed() {
+		commitSet = nil
+	}
+
 	log.Infof("ChannelArbitrator(%v): starting state=%v, trigger=%v, "+
 		"triggerHeight=%v", c.cfg.ChanPoint, c.state, trigger,
 		triggerHeight)
